@@ -12,6 +12,9 @@ type Lexer struct {
 	line    int
 	column  int
 	atStart bool
+	// inHeader: a date opened this line (a transaction header); after status, code and secondary date the rest of the
+	// line is free text, whatever it starts with ("IKEA", "7eleven", "$5 lunch")
+	inHeader bool
 }
 
 func NewLexer(input string) *Lexer {
@@ -48,6 +51,7 @@ func (l *Lexer) scanLineStart() Token {
 	}
 
 	if l.isDigit(l.peek()) {
+		l.inHeader = true
 		return l.scanDate()
 	}
 
@@ -78,6 +82,8 @@ func (l *Lexer) scanInLine() Token {
 			return l.scanSingle(TokenLParen, "(")
 		}
 		return l.scanCode()
+	case l.inHeader && ch != '|' && ch != '=' && ch != '*' && ch != '!' && !(l.isDigit(ch) && l.looksLikeDate()):
+		return l.scanText()
 	case ch == ')':
 		return l.scanSingle(TokenRParen, ")")
 	case ch == '[':
@@ -195,6 +201,7 @@ func (l *Lexer) scanNewline() Token {
 	l.line++
 	l.column = 1
 	l.atStart = true
+	l.inHeader = false
 	return Token{Type: TokenNewline, Value: "\n", Pos: startPos, End: l.position()}
 }
 
